@@ -103,10 +103,30 @@ func txtFuzzStream(o *runOpts, s *Sink, target, stream string, mk func(id, text 
 		if !ok || len(text) > 8192 {
 			continue
 		}
+		if stream == "C14gbfuzz" && longDigitRun(text, 6) {
+			// a location such as 1..9999999 makes both sides build a list of that many positions (the Go side and the
+			// driver skip 8-19 digits themselves; 6 and 7 digits would still cost gigabytes in the driver)
+			continue
+		}
 		c := mk(fmt.Sprintf("%s-%d-%d", stream, o.seed, k), text)
 		c.Tag("go-fuzz-corpus")
 		c.NonTrv = true
 		s.Emit(c)
 		k++
 	}
+}
+
+func longDigitRun(s string, n int) bool {
+	run := 0
+	for i := 0; i < len(s); i++ {
+		if s[i] >= '0' && s[i] <= '9' {
+			run++
+			if run >= n {
+				return true
+			}
+		} else {
+			run = 0
+		}
+	}
+	return false
 }
